@@ -16,7 +16,7 @@ def check_c08(tier, replay):
     th = tier == "thorough"
     try:
         if replay:
-            raise MachineryError("C08 violations name the cipher and length; re-run the check with the same VERIF_SEED")
+            vlib.replay_as_rerun(v, replay)   # everything is derived from the seed and tier recorded in the replay file
         r = vlib.run_tlc(scr, "Cfb", "Cfb_mc.cfg", timeout=600)
         if not r.ok:
             raise MachineryError("Cfb.tla: %s\n%s" % (r.violation, r.out[-2000:]))
